@@ -278,4 +278,252 @@ theorem writing_writes (old : Text) : ∀ (ws : List Text) (fs : FS) (acc : Text
     · rw [hs]; exact w.content
     · exact hs2 s hs
 
+/-! ### several data files -/
+
+
+
+theorem mem_mcrashStates_append (fs : MFS) (a b : List MOp) (s : List (Option Text)) :
+    s ∈ mcrashStates fs (a ++ b) ↔ s ∈ mcrashStates fs a ∨ s ∈ mcrashStates (fs.run a) b := by
+  induction a generalizing fs with
+  | nil =>
+    simp only [List.nil_append, mcrashStates, List.mem_singleton, MFS.run, List.foldl_nil]
+    constructor
+    · intro h; exact Or.inr h
+    · rintro (h | h)
+      · cases b <;> simp [mcrashStates, h]
+      · exact h
+  | cons o os ih =>
+    simp only [List.cons_append, mcrashStates, List.mem_cons, MFS.run, List.foldl_cons]
+    rw [ih (fs.apply o)]
+    simp only [MFS.run]
+    constructor
+    · rintro (h | h | h)
+      · exact Or.inl (Or.inl h)
+      · exact Or.inl (Or.inr h)
+      · exact Or.inr h
+    · rintro ((h | h) | h)
+      · exact Or.inl h
+      · exact Or.inr (Or.inl h)
+      · exact Or.inr (Or.inr h)
+
+theorem mrun_append (fs : MFS) (a b : List MOp) : fs.run (a ++ b) = (fs.run a).run b := by
+  simp [MFS.run, List.foldl_append]
+
+/-- no open handle, every data file's inode exists -/
+structure Sound (fs : MFS) : Prop where
+  handle : fs.handle = none
+  range : ∀ d ∈ fs.datas, ∀ n, d = some n → n < fs.inodes.length
+
+/-- while the temporary file of one rewrite is written: nothing that a data file points to has changed -/
+structure MWriting (fs0 fs : MFS) (acc : Text) : Prop where
+  datas : fs.datas = fs0.datas
+  len : fs.inodes.length = fs0.inodes.length + 1
+  frame : ∀ n, n < fs0.inodes.length → fs.inodes[n]? = fs0.inodes[n]?
+  tmp : fs.tmp = some fs0.inodes.length
+  h : ∃ disk buf, fs.inodes[fs0.inodes.length]? = some disk ∧ fs.handle = some (fs0.inodes.length, buf)
+        ∧ disk ++ buf = acc
+
+theorem MWriting.contents {fs0 fs : MFS} {acc : Text} (s : Sound fs0) (w : MWriting fs0 fs acc) :
+    fs.contents = fs0.contents := by
+  unfold MFS.contents
+  rw [w.datas]
+  apply List.map_congr_left
+  intro d hd
+  cases d with
+  | none => rfl
+  | some n => exact w.frame n (s.range _ hd n rfl)
+
+theorem mwriting_flush {fs0 fs : MFS} {acc : Text} (w : MWriting fs0 fs acc) : MWriting fs0 fs.flushH acc := by
+  obtain ⟨disk, buf, h1, h2, h3⟩ := w.h
+  unfold MFS.flushH
+  rw [h2]
+  refine ⟨w.datas, by simp [w.len], ?_, w.tmp, ?_⟩
+  · intro n hn
+    simp only
+    rw [List.getElem?_set_ne (by omega)]; exact w.frame n hn
+  · refine ⟨acc, [], ?_, rfl, by simp⟩
+    simp only [h1, Option.getD_some, h3]
+    rw [List.getElem?_set_self (by rw [w.len]; omega)]
+
+theorem mwriting_write {fs0 fs : MFS} {acc : Text} (w : MWriting fs0 fs acc) (t : Text) :
+    MWriting fs0 (fs.apply (.write t)) (acc ++ t) := by
+  obtain ⟨disk, buf, h1, h2, h3⟩ := w.h
+  have w' : MWriting fs0 { fs with handle := some (fs0.inodes.length, buf ++ t) } (acc ++ t) :=
+    ⟨w.datas, w.len, w.frame, w.tmp, disk, buf ++ t, h1, rfl, by rw [← h3, List.append_assoc]⟩
+  simp only [MFS.apply, h2]
+  split
+  · exact mwriting_flush w'
+  · exact w'
+
+theorem mwriting_writes (fs0 : MFS) (s : Sound fs0) : ∀ (ws : List Text) (fs : MFS) (acc : Text),
+    MWriting fs0 fs acc →
+    MWriting fs0 (fs.run (ws.map MOp.write)) (acc ++ ws.flatten)
+      ∧ ∀ c ∈ mcrashStates fs (ws.map MOp.write), c = fs0.contents := by
+  intro ws
+  induction ws with
+  | nil =>
+    intro fs acc w
+    refine ⟨by simpa [MFS.run] using w, ?_⟩
+    intro c hc
+    simp only [List.map_nil, mcrashStates, List.mem_singleton] at hc
+    rw [hc]; exact w.contents s
+  | cons t ts ih =>
+    intro fs acc w
+    obtain ⟨w2, hs2⟩ := ih (fs.apply (.write t)) (acc ++ t) (mwriting_write w t)
+    refine ⟨by simpa [MFS.run, List.append_assoc] using w2, ?_⟩
+    intro c hc
+    simp only [List.map_cons, mcrashStates, List.mem_cons] at hc
+    rcases hc with hc | hc
+    · rw [hc]; exact w.contents s
+    · exact hs2 c hc
+
+theorem contents_length (fs : MFS) : fs.contents.length = fs.datas.length := by simp [MFS.contents]
+
+/-- one file's rewrite: at every point all data files hold what they held before, except that
+after the `os.replace` file `i` holds the new content; and the state is sound again -/
+theorem fileOps_spec (fs0 : MFS) (s : Sound fs0) (i : Nat) (out : List Text) :
+    (∀ c ∈ mcrashStates fs0 (fileOps i out), c = fs0.contents ∨ c = fs0.contents.set i (some out.flatten))
+    ∧ (fs0.run (fileOps i out)).contents = fs0.contents.set i (some out.flatten)
+    ∧ Sound (fs0.run (fileOps i out)) := by
+  have w0 : MWriting fs0 (fs0.run [MOp.create]) [] := by
+    refine ⟨rfl, by simp [MFS.run, MFS.apply], ?_, rfl, [], [], ?_, rfl, rfl⟩
+    · intro n hn
+      simp only [MFS.run, List.foldl_cons, List.foldl_nil, MFS.apply]
+      rw [List.getElem?_append_left hn]
+    · simp [MFS.run, MFS.apply]
+  obtain ⟨w1, hw⟩ := mwriting_writes fs0 s out _ [] w0
+  simp only [List.nil_append] at w1
+  generalize hfs1 : (fs0.run [MOp.create]).run (out.map MOp.write) = fs1 at w1
+  have wf := mwriting_flush w1
+  obtain ⟨disk, buf, h1, h2, h3⟩ := w1.h
+  obtain ⟨disk', buf', h1', h2', h3'⟩ := wf.h
+  have hb : buf' = [] := by
+    have : (MFS.flushH fs1).handle = some (fs0.inodes.length, []) := by unfold MFS.flushH; rw [h2]
+    rw [this] at h2'; cases h2'; rfl
+  subst hb
+  simp only [List.append_nil] at h3'
+  -- the state after close, and after replace
+  have hclose : (fs1.apply .close).contents = fs0.contents := by
+    have : MWriting fs0 { fs1.flushH with handle := some (fs0.inodes.length, []) } out.flatten :=
+      ⟨wf.datas, wf.len, wf.frame, wf.tmp, disk', [], h1', rfl, by simpa using h3'⟩
+    have hc := this.contents s
+    simpa [MFS.apply, MFS.contents] using hc
+  have hrep : ((fs1.apply .close).apply (.replace i)).contents = fs0.contents.set i (some out.flatten) := by
+    simp only [MFS.apply, MFS.contents, wf.tmp, wf.datas]
+    rw [List.map_set]
+    congr 1
+    · apply List.map_congr_left
+      intro d hd
+      cases d with
+      | none => rfl
+      | some n => exact wf.frame n (s.range _ hd n rfl)
+    · simp [h1', h3']
+  have hops : fileOps i out = [MOp.create] ++ (out.map MOp.write ++ [MOp.close, MOp.replace i]) := by
+    simp [fileOps]
+  refine ⟨?_, ?_, ?_⟩
+  · intro c hc
+    rw [hops, mem_mcrashStates_append] at hc
+    rcases hc with hc | hc
+    · simp only [mcrashStates, List.mem_cons, List.not_mem_nil, or_false] at hc
+      rcases hc with hc | hc
+      · left; exact hc
+      · left; rw [hc]; exact w0.contents s
+    · rw [mem_mcrashStates_append] at hc
+      rcases hc with hc | hc
+      · exact Or.inl (hw c hc)
+      · rw [hfs1] at hc
+        simp only [mcrashStates, List.mem_cons, List.not_mem_nil, or_false] at hc
+        rcases hc with hc | hc | hc
+        · left; rw [hc]; exact w1.contents s
+        · left; rw [hc]; exact hclose
+        · right; rw [hc]; exact hrep
+  · rw [hops, mrun_append, mrun_append, hfs1]
+    simpa [MFS.run] using hrep
+  · rw [hops, mrun_append, mrun_append, hfs1]
+    simp only [MFS.run, List.foldl_cons, List.foldl_nil, MFS.apply]
+    refine ⟨rfl, ?_⟩
+    intro d hd n hn
+    simp only [wf.datas, wf.tmp] at hd
+    simp only [wf.len]
+    rcases List.mem_or_eq_of_mem_set hd with hd | hd
+    · have := s.range d hd n hn; omega
+    · rw [hn] at hd; cases hd; omega
+
+
+
+theorem multiOps_cons (p : Nat × List Text) (rest : List (Nat × List Text)) :
+    multiOps (p :: rest) = fileOps p.1 p.2 ++ multiOps rest := by
+  simp [multiOps]
+
+theorem switched_cons (cs : List (Option Text)) (p : Nat × List Text) (rest : List (Nat × List Text)) :
+    switched cs (p :: rest) = switched (cs.set p.1 (some p.2.flatten)) rest := rfl
+
+/-- every crash state of a multi-file rewrite: the first `m` files are switched to their new
+content, the others still hold what they held -/
+theorem multi_states : ∀ (rws : List (Nat × List Text)) (fs : MFS), Sound fs →
+    (∀ c ∈ mcrashStates fs (multiOps rws), ∃ m, m ≤ rws.length ∧ c = switched fs.contents (rws.take m))
+    ∧ (fs.run (multiOps rws)).contents = switched fs.contents rws := by
+  intro rws
+  induction rws with
+  | nil =>
+    intro fs _
+    refine ⟨?_, rfl⟩
+    intro c hc
+    simp only [multiOps, List.flatMap_nil, mcrashStates, List.mem_singleton] at hc
+    exact ⟨0, Nat.le_refl _, by rw [hc]; rfl⟩
+  | cons p rest ih =>
+    intro fs s
+    obtain ⟨b1, b2, b3⟩ := fileOps_spec fs s p.1 p.2
+    obtain ⟨i1, i2⟩ := ih (fs.run (fileOps p.1 p.2)) b3
+    refine ⟨?_, ?_⟩
+    · intro c hc
+      rw [multiOps_cons, mem_mcrashStates_append] at hc
+      rcases hc with hc | hc
+      · rcases b1 c hc with h | h
+        · exact ⟨0, Nat.zero_le _, by rw [h]; rfl⟩
+        · exact ⟨1, by simp, by rw [h]; rfl⟩
+      · obtain ⟨m, hm, hcm⟩ := i1 c hc
+        refine ⟨m + 1, by simpa using hm, ?_⟩
+        rw [hcm, b2, List.take_succ_cons, switched_cons]
+    · rw [multiOps_cons, mrun_append, i2, b2, switched_cons]
+
+theorem switched_get : ∀ (rws : List (Nat × List Text)) (cs : List (Option Text)) (j : Nat),
+    (switched cs rws)[j]? = cs[j]? ∨ ∃ p ∈ rws, p.1 = j ∧ (switched cs rws)[j]? = some (some p.2.flatten) := by
+  intro rws
+  induction rws with
+  | nil => intro cs j; exact Or.inl rfl
+  | cons p rest ih =>
+    intro cs j
+    rw [switched_cons]
+    rcases ih (cs.set p.1 (some p.2.flatten)) j with h | ⟨q, hq, hqj, hv⟩
+    · by_cases hpj : p.1 = j
+      · by_cases hlt : j < cs.length
+        · right
+          refine ⟨p, List.mem_cons_self .., hpj, ?_⟩
+          rw [h, hpj, List.getElem?_set_self hlt]
+        · left
+          rw [h, List.getElem?_eq_none (by simpa using Nat.le_of_not_lt hlt),
+            List.getElem?_eq_none (Nat.le_of_not_lt hlt)]
+      · left; rw [h, List.getElem?_set_ne hpj]
+    · exact Or.inr ⟨q, List.mem_cons_of_mem _ hq, hqj, hv⟩
+
+theorem start_sound (olds : List Text) (cap : Nat) : Sound (MFS.start olds cap) := by
+  refine ⟨rfl, ?_⟩
+  intro d hd n hn
+  simp only [MFS.start, List.mem_map, List.mem_range] at hd
+  obtain ⟨k, hk, rfl⟩ := hd
+  cases hn
+  simpa [MFS.start] using hk
+
+theorem start_contents (olds : List Text) (cap : Nat) : (MFS.start olds cap).contents = olds.map some := by
+  unfold MFS.contents MFS.start
+  simp only
+  apply List.ext_getElem?
+  intro j
+  simp only [List.getElem?_map, List.getElem?_range]
+  by_cases hj : j < olds.length
+  · simp [List.getElem?_range, hj]
+  · simp [List.getElem?_eq_none (Nat.le_of_not_lt hj), hj]
+
+
 end RB.Rewrite
